@@ -50,6 +50,23 @@ func (r *Reader) createPRVWBox(b *box) (inner box, err error) {
 	inner.size = int64(bmffEndian.Uint32(buf[:4]))
 	inner.remain = int(inner.size)
 	inner.boxType = boxTypeFromBuf(buf[4:8])
+	if inner.size == 1 {
+		// 64-bit size after the type: the fields parsePreviewBox reads then
+		// start 8 bytes later, so the size field is stepped over here
+		if buf, err = b.Peek(16); err != nil {
+			return inner, errPRVWBoxPeek
+		}
+		inner.size = int64(bmffEndian.Uint64(buf[8:16]))
+		if inner.size < 16 {
+			return inner, errPRVWBoxPeek
+		}
+		if _, err = b.Discard(8); err != nil {
+			return inner, errPRVWBoxDiscard
+		}
+		inner.offset += 8
+		inner.size -= 8
+		inner.remain = int(inner.size)
+	}
 
 	return inner, nil
 }
